@@ -704,6 +704,9 @@ def c02_aggregator_wiring(tier, rng):
 
 
 # ---- TPM tables: every column of a count table rescaled to 10^6, ratios kept -------------------------------------------------------------------
+_TRAILER = ("__ambiguous", "__no_feature", "__not_aligned")
+
+
 def _tpm_case(seed):
     import os, random, shutil, tempfile
     rng = random.Random(seed)
@@ -718,6 +721,12 @@ def _tpm_case(seed):
         c = lrc.create_transcript_counter(os.path.join(d, "t"), "with_ambiguous", read_groups=set(groups) if groups else None)
         ncol = len(groups) if grouped else 1
         feats = ["T%d" % k for k in range(rng.randint(1, 6))]
+        # identifiers are whatever the annotation uses: a leading underscore, or two, is an identifier like any other (own generator:
+        # earlier seeds keep their tables)
+        rng2 = random.Random(seed * 613 + 29)
+        if rng2.random() < .4:
+            feats = [rng2.choice(["%s", "_%s", "__%s", "_", "%s_", "transcript%s.chr1.nic", "__ambiguous_%s"]).replace("%s", f) + ("" if k else "x") for k, f in enumerate(feats)]
+            feats = sorted(set(feats), key=lambda f: (rng2.random(), f))
         # counts as the counters produce them: integers and fractions 1/k of shared reads; a column may sum to 0, to less than 1, or to more
         col_kind = [rng.choice(["zero", "fraction", "any", "any"]) for _ in range(ncol)]
         rows = {}
@@ -737,14 +746,14 @@ def _tpm_case(seed):
         # the file is what convert_counts_to_tpm reads; parse it back the same way so that rounding in the file is not held against the TPMs
         counts = {}
         for line in open(c.output_counts_file_name):
-            if line.startswith("#") or line.startswith("_"):
+            if line.startswith("#") or line.split("\t")[0] in _TRAILER:
                 continue
             fs = line.rstrip().split("\t")
             counts[fs[0]] = [float(x) for x in fs[1:]]
         c.convert_counts_to_tpm("simple")
         tpm = {}
         for line in open(c.output_tpm_file_name):
-            if line.startswith("#") or line.startswith("_"):
+            if line.startswith("#") or line.split("\t")[0] in _TRAILER + ("__unassigned",):
                 continue
             fs = line.rstrip().split("\t")
             tpm[fs[0]] = [float(x) for x in fs[1:]]
@@ -771,7 +780,7 @@ def replay_tpm(d):
 
 @bounded("C02.tpm_rescaling", ["C02"], note="the real convert_counts_to_tpm('simple') of plain and grouped transcript counters on count tables with "
          "integer and fractional (1/k) entries, incl. group columns that sum to 0 or to less than 1: every column with counts sums to 10^6 and "
-         "each value is count * 10^6 / column total; a column without counts stays zero")
+         "each value is count * 10^6 / column total; a column without counts stays zero; feature identifiers include ones with leading underscores")
 def c02_tpm(tier, rng):
     n = 300 if tier == "quick" else 10000
     base = rng.randrange(10 ** 9)
